@@ -49,6 +49,16 @@ CLAIMED["C07"] = dict(
     note="Trusted: the comparison tolerances of DESIGN 2.3 (Re/lambda lag the mass flow by one Newton step). Derivatives of the mean pressure "
          "are compared only for |dp| > 1e-4 p (unbounded cancellation). Transient kernels out of scope. Known finding: dead-end pump verdict.",
     ref="DESIGN.md 4/C07")
+CLAIMED["C02"] = dict(
+    technique="property-based testing (Hypothesis) against an independent re-implementation of the documented momentum equation and friction models",
+    text="Exploration: generated networks (all library fluids, three friction models, both engines, heights, loss coefficients, multi-section "
+         "pipes, ju/pi valves, heat exchangers, reverse flow, label variants; bidirectional heating loops) are solved with tight tolerances; for "
+         "every flowing pipe (section), valve and heat exchanger the documented momentum equation is re-evaluated from the reported end "
+         "pressures, mass flow and temperatures by refphys (own fluid-table parser, own Colebrook root finder), residual bound 1e-7 bar; "
+         "reported Re, lambda, velocities, volume flows and norm factors must follow from the reported state.",
+    note="Trusted: the documentation formulas as transcribed in vp/refphys.py (Nikuradse constant 1.14 for gases taken from the code), the "
+         "library fluid tables. Section values of multi-section pipes come from Pipe.get_internal_results (contiguous pipe index only).",
+    ref="DESIGN.md 4/C02")
 NOT_YET = {}
 
 def main():
